@@ -54,7 +54,10 @@ invisible here by construction -- that is C07's subject.
 
 VERIF_SEED: the quick tier enumerates the full product projection x rotation x parity x frame (96 WCS)
 and pairs scale and crval with them cyclically; the seed only shifts the phase of that pairing.  The
-thorough tier is the full 6-axis product and does not depend on the seed.  Nothing is random.
+thorough tier crosses the full 6-axis WCS product (1152) with every geometry and centre and the two
+"diagonal" (include, decoration) variants -- that part does not depend on the seed -- and crosses the
+two remaining (include, decoration) variants with the 96-WCS sub-lattice of the quick tier (phase =
+seed).  Nothing is random.
 """
 import math
 import operator
@@ -75,19 +78,22 @@ FILES = ['regions/_utils/wcs_helpers.py', 'regions/shapes/circle.py', 'regions/s
          'regions/shapes/rectangle.py', 'regions/shapes/polygon.py', 'regions/shapes/annulus.py',
          'regions/shapes/point.py', 'regions/shapes/line.py', 'regions/shapes/text.py',
          'regions/core/compound.py', 'regions/core/core.py', 'regions/core/pixcoord.py']
-RULE = ('full Cartesian product of region spec (class x size variant x centre x include flag x meta/visual decoration; '
-        '12 classes incl. 3 compounds of two) x WCS spec (projection x rotation x scale x parity x frame x crval); one '
-        'state = one (spec, WCS); per state: to_sky, to_pixel (leg A), harness-built sky region -> to_pixel -> to_sky '
-        '(leg B), SkyRegion.contains vs pixel image contains on the C01 query lattice (array + scalar) vs reference '
-        'membership; a state is non-trivial when the WCS is rotated, flipped or non-TAN and the region has robust '
-        'members and robust non-members')
+RULE = ('full Cartesian product of region spec (23 geometry variants of 12 classes incl. 3 compounds of two x centre x '
+        '(include flag, meta/visual decoration) variant) x WCS spec (projection x rotation x scale x parity x frame x crval); '
+        'one state = one (spec, WCS); per state: to_sky, to_pixel (leg A), harness-built sky region -> to_pixel -> to_sky '
+        '(leg B), SkyRegion.contains vs pixel-image contains on the C01 query lattice (array; one scalar query on every '
+        'second state) vs reference membership; a state is non-trivial when the WCS is rotated, flipped or non-TAN and the '
+        'region has robust members and robust non-members')
 BOUNDS = {
     'quick': '96 WCS = {TAN,SIN,CAR} x rot {0,30,137,-90} x parity {std,flipped} x {ICRS,FK5,FK4,Galactic}, scale '
              '{2.8e-6,1e-4,1e-2,0.1 deg/px} and crval {(40,20),(0,0),(266,-29)} paired cyclically (phase = VERIF_SEED); '
-             '23 geometry variants of 12 classes x centres {crpix, +(30.25,-40.5), +(250.25,150.5)} x '
-             '{(include absent, no meta), (include False, meta+visual)}',
-    'thorough': '1152 WCS = full product of the six axes; 23 geometry variants x 3 centres x include {absent, False} x '
-                'meta/visual {empty, text+tag / color (+rotation for text)}',
+             '23 geometry variants x centres {crpix, +(250.25,150.5)} x {(include absent, no meta), (include False, '
+             'meta+visual)} = 92 region specs',
+    'thorough': 'main: 1152 WCS = full product of the six axes x 23 geometry variants x 3 centres {crpix, +(30.25,-40.5), '
+                '+(250.25,150.5)} x {(include absent, no meta), (include False, meta+visual)} = 138 region specs; '
+                'off-diagonal: the 96 WCS of the quick sub-lattice x 23 x 3 x {(include False, no meta), (include absent, '
+                'meta+visual)}, so include x decoration is a full product there (the handling of meta/visual does not '
+                'involve the WCS; the split keeps the run under 10 minutes, one FK4 state costs ~95 ms)',
 }
 ASSUMPTIONS = [
     'astropy.wcs pixel_to_world / world_to_pixel, SkyCoord construction and frame transformation are trusted',
